@@ -467,7 +467,7 @@ func (m *MsgBridgeCallClaim) GetClaimer() sdk.AccAddress {
 }
 
 func (m *MsgBridgeCallClaim) ClaimHash() []byte {
-	path := fmt.Sprintf("%d/%d/%s/%s/%s/%s/%v/%v/%s", m.BlockHeight, m.EventNonce, m.Sender, m.Refund, m.To, m.TokenContracts, m.Amounts, m.Data, m.Value.String())
+	path := fmt.Sprintf("%d/%d/%s/%s/%s/%s/%v/%v/%s/%s/%s", m.BlockHeight, m.EventNonce, m.Sender, m.Refund, m.To, m.TokenContracts, m.Amounts, m.Data, m.Value.String(), m.TxOrigin, m.Memo)
 	return tmhash.Sum([]byte(path))
 }
 
@@ -566,7 +566,7 @@ func (m *MsgBridgeCallResultClaim) GetSigners() []sdk.AccAddress {
 }
 
 func (m *MsgBridgeCallResultClaim) ClaimHash() []byte {
-	path := fmt.Sprintf("%d/%d/%d/%t/%s", m.BlockHeight, m.EventNonce, m.Nonce, m.Success, m.Cause)
+	path := fmt.Sprintf("%d/%d/%d/%t/%s/%s", m.BlockHeight, m.EventNonce, m.Nonce, m.Success, m.Cause, m.TxOrigin)
 	return tmhash.Sum([]byte(path))
 }
 
@@ -642,7 +642,9 @@ func (m *MsgBridgeTokenClaim) GetType() ClaimType {
 }
 
 func (m *MsgBridgeTokenClaim) ClaimHash() []byte {
-	path := fmt.Sprintf("%d/%d%s/%s/%s/%d/%s/", m.BlockHeight, m.EventNonce, m.TokenContract, m.Name, m.Symbol, m.Decimals, m.ChannelIbc)
+	// name and symbol are free-form text that may contain the '/' separator: hex-encode them (%x) so that the
+	// path determines every field ("A/FX"+"FX" and "A"+"FX/FX" must not share a hash)
+	path := fmt.Sprintf("%d/%d%s/%x/%x/%d/%s/", m.BlockHeight, m.EventNonce, m.TokenContract, m.Name, m.Symbol, m.Decimals, m.ChannelIbc)
 	return tmhash.Sum([]byte(path))
 }
 
